@@ -62,6 +62,11 @@ type POLoc struct {
 	classIdx map[string]int
 	readSeen bool
 	IsChan   bool
+	// scalar locations: the constants written so far (over all passes); NonConst when some
+	// write is not a constant. A read of a location whose writes are all constants is assumed
+	// to return the initial value or one of them (sound at the pass fixpoint, see restrict).
+	ConstVals map[uint64]bool
+	NonConst  bool
 	Reads    []*POAccessRef
 	Writes   []*POAccessRef
 	Name     string
@@ -248,6 +253,47 @@ func (po *PO) loc(key string, init Value, name string) (*POLoc, error) {
 	}
 	po.Locs[key] = l
 	return l, nil
+}
+
+// noteWrite records the value of a scalar write for the value-set restriction.
+func (po *PO) noteWrite(l *POLoc, wv *smt.Term) {
+	if l.W == -1 || wv == nil || l.NonConst {
+		return
+	}
+	if !wv.IsConst() {
+		l.NonConst = true
+		po.rerun = true
+		return
+	}
+	if l.ConstVals == nil {
+		l.ConstVals = map[uint64]bool{}
+	}
+	if !l.ConstVals[wv.C] {
+		l.ConstVals[wv.C] = true
+		po.rerun = true
+	}
+}
+
+// restrict assumes that a fresh read value of a scalar location with constant-only writes
+// is the initial value or one of the constants written in this or an earlier pass. The
+// passes are repeated until no location gains a value, so at the fixpoint the set is closed:
+// along any real execution every read returns the initial value or an earlier write, which
+// by induction is in the set. Before the fixpoint the assumption only prunes exploration
+// (the formulas of such a pass are never solved).
+func (po *PO) restrict(st *State, l *POLoc, rv *smt.Term) {
+	if l.W <= 0 || l.NonConst || l.Init == nil || !l.Init.IsConst() || len(l.ConstVals) > 8 {
+		return
+	}
+	alts := []*smt.Term{smt.Eq(rv, l.Init)}
+	var ks []uint64
+	for k := range l.ConstVals {
+		ks = append(ks, k)
+	}
+	sort.Slice(ks, func(i, j int) bool { return ks[i] < ks[j] })
+	for _, k := range ks {
+		alts = append(alts, smt.Eq(rv, smt.BV(k, l.W)))
+	}
+	st.Assume(smt.Or(alts...))
 }
 
 func (l *POLoc) sort() smt.Sort {
@@ -651,6 +697,7 @@ func (po *PO) Load(st *State, p Ptr, t types.Type, atomicOp bool, pos token.Pos)
 		a.Atomic = atomicOp
 		l.Reads = append(l.Reads, &POAccessRef{ev, a})
 	}
+	po.restrict(st, l, a.RV)
 	v, err := po.readValue(st, ev, l, a.RV)
 	return v, true, err
 }
@@ -691,6 +738,7 @@ func (po *PO) Store(st *State, p Ptr, v Value, atomicOp bool, pos token.Pos) (bo
 				return true, unknownf("non-scalar store to scalar location")
 			}
 			a.WV = t
+			po.noteWrite(l, t)
 		}
 		l.Writes = append(l.Writes, &POAccessRef{ev, a})
 	}
@@ -761,9 +809,11 @@ func (po *PO) AtomicRMW(st *State, p Ptr, w int, f func(old *smt.Term) (*smt.Ter
 		a.Atomic = true
 		nv, wg := f(a.RV)
 		a.WV, a.WG = nv, wg
+		po.noteWrite(l, nv)
 		l.Reads = append(l.Reads, &POAccessRef{ev, a})
 		l.Writes = append(l.Writes, &POAccessRef{ev, a})
 	}
+	po.restrict(st, l, a.RV)
 	return a.RV, true, nil
 }
 
